@@ -218,8 +218,12 @@ def run_parallel(cmd, traces, env=None, jobs=None):
     return res
 
 LEDGER = re.compile(r" L=\d+,\d+,\d+")
+DIAG = re.compile(r" #[A-Za-z].*$")
 def strip_ledger(s):
-    return LEDGER.sub("", s).rstrip()
+    """Remove what the ideal object has no opinion about: the ledger token and the diagnostic tail
+    (everything from the first ' #<letter>' to the end of the line, e.g. ' #T=<tree shape> #K=<calls>').
+    Both are still compared exactly between model and implementation."""
+    return LEDGER.sub("", DIAG.sub("", s)).rstrip()
 
 def norm_c(line):
     if line.startswith("CRASH"): return "CRASH"
@@ -245,7 +249,7 @@ def compare(trace, c_lines, m_lines):
             res["crash"] = {"line": i, "c": c}
         if res["corr"] is None and cn != m:
             res["corr"] = {"line": i, "c": c, "model": mraw}
-        if res["ideal"] is None and ideal is not None and strip_ledger(cn) != ideal and not ideal.startswith("~"):
+        if res["ideal"] is None and ideal is not None and not ideal.startswith("~") and strip_ledger(cn) != strip_ledger(ideal):
             res["ideal"] = {"line": i, "c": c, "ideal": ideal}
         if cn == "CRASH" or m == "CRASH":
             break
